@@ -172,7 +172,37 @@ def gen_case(rng, tier, ctx, i):
     rec = common.model_case(rng, tier, o)
     if rec is None:
         return None
-    return common.with_twins(rng, {"recipe": rec})
+    case = {"recipe": rec}
+    if rng.random() < 0.15:
+        case["redefine"] = rng.getrandbits(32)        # a named rule over leaves is replaced in place by another rule with the same id between two conversions
+    return common.with_twins(rng, case)
+
+
+def redefine(m, rng):
+    """replace, in the live object, one explicitly named sub-proposition over leaves by another definition over the same leaves with the same id
+    (the idiom the configurator's Xor uses itself: parent.propositions[i] = ...). Returns a description or None when the model has no such node."""
+    import puan.logic.plog as pg
+    cands, stack, seen = [], [m], set()
+    while stack:
+        n = stack.pop()
+        if id(n) in seen:
+            continue
+        seen.add(id(n))
+        for i, c in enumerate(n.propositions):
+            if adapters.is_leaf(c):
+                continue
+            stack.append(c)
+            if not c.generated_id and len(c.propositions) >= 2 and all(adapters.is_leaf(x) for x in c.propositions):
+                cands.append((n, i, c))
+    if not cands:
+        return None
+    n, i, c = rng.choice(cands)
+    leaves = list(c.propositions)
+    options = [(1, 1), (1, len(leaves)), (-1, -1), (1, 2), (-1, 0)]
+    options = [o for o in options if o != (c.sign, c.value)]
+    sign, value = rng.choice(options)
+    n.propositions[i] = pg.AtLeast(value, leaves, variable=c.id, sign=puan.Sign(sign))
+    return {"node": c.id, "was": [int(c.sign), int(c.value)], "now": [sign, value]}
 
 
 def _run_one(case, ctx):
@@ -185,6 +215,16 @@ def _run_one(case, ctx):
     if case.get("configurator"):
         ctx.count("count:configurator-polyhedra")
         ctx.call("ge_polyhedron", lambda: m.ge_polyhedron)
+    if case.get("redefine") is not None:
+        import random
+        what = redefine(m, random.Random(case["redefine"]))
+        if what is None:
+            ctx.count("redefine:no-named-rule-over-leaves")
+            return
+        common.domain(m)                      # the edited object is itself a validated model (else out of scope)
+        ctx.count("count:redefined-in-place-then-converted")
+        ctx.call("to_ge_polyhedron(True)", m.to_ge_polyhedron, True)
+        ctx.call("to_ge_polyhedron(False)", m.to_ge_polyhedron, active=False)
 
 
 def run_case(case, ctx):
